@@ -150,9 +150,9 @@ class Spec:
             return ca.veccat(*lst) if lst else None
         raise ValueError(a)
 
-    def build(self):
-        """declare the OCP through rockit's public API"""
-        from rockit import Ocp, FreeTime
+    def build(self, parent=None, template=False):
+        """declare the OCP (or a stage of `parent`, or a free-standing template stage) through rockit's public API"""
+        from rockit import Ocp, FreeTime, Stage
         kw = {}
         self.T_value = self.t0_value = None
         for key, spec in (("T", self.T), ("t0", self.t0)):
@@ -166,7 +166,12 @@ class Spec:
                 kw[key] = val
             elif spec[0] == "param":
                 kw[key] = 1.0      # replaced below by a parameter
-        ocp = self.ocp = Ocp(**kw)
+        if template:
+            ocp = self.ocp = Stage(**kw)
+        elif parent is not None:
+            ocp = self.ocp = parent.stage(**kw)
+        else:
+            ocp = self.ocp = Ocp(**kw)
         S = self.sym
         S["x"] = [ocp.state(n, scale=self._scale("x", i, n)) for i, n in enumerate(self.states)]
         S["u"] = [ocp.control(n, scale=self._scale("u", i, n)) for i, n in enumerate(self.controls)]
@@ -243,10 +248,19 @@ class Spec:
             v = self.initial_value(val)
             self.initial_realised.append((tgt, val if isinstance(val, E) else v))
             ocp.set_initial(self.initial_target(tgt), v)
-        if self.solver:
+        if self.solver and parent is None and not template:
             ocp.solver(self.solver)
         ocp.method(self.make_method())
         return ocp
+
+    def bound_to(self, stage, **over):
+        """the same specification seen through another stage object (a clone of the template)"""
+        import copy
+        c = copy.copy(self)
+        c.ocp = stage
+        for k, v in over.items():
+            setattr(c, k, v)
+        return c
 
     def initial_target(self, tgt):
         S = self.sym
